@@ -114,6 +114,30 @@ def build_service(rec, behaviours=None):
                 next = __next__
             return Chunks()
 
+        @rpc(Integer, _returns=(Integer, Unicode))
+        def pair(ctx, n):
+            # two return values; n < 0: the method hands back Ignored instead (nothing is to be sent)
+            rec.enter('pair', n)
+            if n is not None and n < 0:
+                from spyne.model._base import Ignored
+                return Ignored('direct callers only', n=n)
+            return n, u'v%s' % n
+
+        @rpc(Unicode, _returns=Integer)
+        def fail_odd(ctx, which):
+            # faults that not every protocol can write: the answer still has to be an answer
+            rec.enter('fail_odd', which)
+            import decimal as _d
+            raise {'ctl': lambda: Fault('Client.Ctl', u'ctl\x0bchar \x01'),
+                   'badkey': lambda: Fault('Client.BadKey', 'x', detail={'k k': 'v', '1st': 'w'}),
+                   'decimal': lambda: Fault('Client.Dec', 'x', detail={'a': _d.Decimal(1), 'b': object()}),
+                   'custom': lambda: Fault('Custom.X', 'm'),
+                   'detailstr': lambda: Fault('Client.DetailStr', 'm', detail='just text'),
+                   'nonecode': lambda: Fault(None, 'x'),
+                   'nonemsg': lambda: Fault('Client.NoMsg', None),
+                   'bytesmsg': lambda: Fault('Client.Bytes', b'\xff\xfe bytes'),
+                   'surrogate': lambda: Fault('Client.Sur', u'lone \ud800 surrogate')}[which]()
+
         @rpc(Unicode, Unicode, _returns=Unicode)
         def negotiate(ctx, fmt, how):
             # content negotiation: the answer to this request is written by another protocol than the application's
